@@ -120,6 +120,8 @@ def classify_path(p, path):
                     v = grlib.inline_image(grlib._inline(b), record=False)
                     if v[0] == "ok":
                         return "imaged-difference"
+                    if v[0] == "bad":
+                        return "wrong-inline-image:" + str(v[1])[:400]
             # definite only when nothing above the difference could fold it back into the cell
             WRAPLIKE = ("numpy.rint", "numpy.round", "numpy.around", "numpy.floor", "numpy.ceil", "numpy.trunc", "numpy.mod", "numpy.remainder", "numpy.fmod",
                         "numpy.where", "numpy.select", "numpy.divmod", "builtins.round", "builtins.divmod", "math.floor")
@@ -219,7 +221,9 @@ def run(run: Run, pkg: Package) -> None:
                         # difference handed to remove_pbc in another slot; a coordinate used as a weight of a phase factor.
                         # Every other class is a form this rule does not know: undecided.
                         c0 = cls.split(":")[0]
-                        definite = c0 in ("raw-difference", "difference-in-wrong-slot", "weight")
+                        definite = c0 in ("raw-difference", "difference-in-wrong-slot", "weight", "wrong-inline-image")
+                        if c0 == "wrong-inline-image":
+                            wit = "the inline minimum image differs from R - (mask (.) nearest(R H^-1)) H: " + cls.split(":", 1)[1]
                         if c0 == "weight":
                             wit = "the absolute coordinate of a particle multiplies its Fourier term: translating the system changes the modulus"
                         run.ob("R-PBC-FLOW", fq, key, False if definite else None, "coordinates reach results only as minimum-imaged differences, box-commensurate phases or shape queries",
